@@ -2,6 +2,7 @@
 package specgen
 
 import (
+	"sort"
 	"fmt"
 
 	"verif/internal/gram"
@@ -505,6 +506,30 @@ func ExprGrammar(r *rng.R, twist string) *ExprSpec {
 	}
 	es.Num = addTok("NUM", "0")
 	nLevels := r.Range(1, 3)
+	// The numbers written in @left(n) / @right(n): only their order matters,
+	// so any increasing sequence must behave like 1, 2, 3, 4 (numbers above
+	// one byte or two, numbers that collide modulo 256 or 65536, very large ones).
+	lvlPools := [][4]int{{1, 2, 3, 4}, {1, 2, 3, 4}, {1, 2, 3, 4}, {100, 200, 300, 400}, {255, 256, 257, 258}, {1, 257, 513, 769},
+		{2, 256, 65536, 65538}, {44, 300, 556, 65580}, {9, 10, 99, 100}, {127, 128, 32767, 32768}, {65535, 65536, 16777216, 2147483647}, {3, 70000, 70001, 1000000000}}
+	pool := lvlPools[r.Intn(len(lvlPools))]
+	if r.Chance(1, 6) {
+		vals := map[int]bool{}
+		for len(vals) < 4 {
+			vals[1+r.Intn(1<<uint(r.Range(3, 31))-1)] = true
+		}
+		var vs []int
+		for v := range vals {
+			vs = append(vs, v)
+		}
+		sort.Ints(vs)
+		copy(pool[:], vs)
+	}
+	lvl := func(i int) int { // i = 1-based level index
+		if i >= 1 && i <= 4 {
+			return pool[i-1]
+		}
+		return pool[3] + i
+	}
 	perm := r.Perm(len(opTokNames))
 	k := 0
 	for l := 0; l < nLevels; l++ {
@@ -526,7 +551,7 @@ func ExprGrammar(r *rng.R, twist string) *ExprSpec {
 	var prods []gram.Prod
 	for li, lv := range es.Levels {
 		for oi, op := range lv.Ops {
-			p := gram.Prod{Terms: []gram.Term{{Ref: e}, tok(op), {Ref: e}}, Qual: &gram.Qual{Right: lv.Right, N: li + 1}}
+			p := gram.Prod{Terms: []gram.Term{{Ref: e}, tok(op), {Ref: e}}, Qual: &gram.Qual{Right: lv.Right, N: lvl(li + 1)}}
 			if twist == "unqualified-op" && li == 0 && oi == 0 {
 				p.Qual = nil
 			}
@@ -539,7 +564,7 @@ func ExprGrammar(r *rng.R, twist string) *ExprSpec {
 	if twist == "" && r.Chance(1, 4) {
 		es.Unary = addTok("NEG", "~")
 		es.UnaryLvl = r.Range(1, nLevels+1)
-		prods = append(prods, gram.Prod{Terms: []gram.Term{tok(es.Unary), {Ref: e}}, Qual: &gram.Qual{Right: r.Chance(1, 2), N: es.UnaryLvl}})
+		prods = append(prods, gram.Prod{Terms: []gram.Term{tok(es.Unary), {Ref: e}}, Qual: &gram.Qual{Right: r.Chance(1, 2), N: lvl(es.UnaryLvl)}})
 	}
 	switch twist {
 	case "unqualified-prefix":
@@ -554,6 +579,28 @@ func ExprGrammar(r *rng.R, twist string) *ExprSpec {
 		} else {
 			lb, rb := addTok("LB", "["), addTok("RB", "]")
 			prods = append(prods, gram.Prod{Terms: []gram.Term{{Ref: e}, tok(lb), {Ref: e}, tok(rb)}})
+		}
+	case "unqualified-shares-operator":
+		// an alternative without qualifier that wants to shift the very
+		// operator of a qualified one (expr OP OP, expr OP BANG), written before
+		// or after the qualified alternatives: after "expr OP expr" the shift
+		// of OP is wanted by a qualified and by an unqualified production, so
+		// precedence must not settle the cell
+		if len(es.Levels) > 0 {
+			lvx := es.Levels[r.Intn(len(es.Levels))]
+			op := lvx.Ops[r.Intn(len(lvx.Ops))]
+			var up gram.Prod
+			if r.Chance(1, 2) {
+				up = gram.Prod{Terms: []gram.Term{{Ref: e}, tok(op), tok(op)}}
+			} else {
+				bang := addTok("BANG", "!")
+				up = gram.Prod{Terms: []gram.Term{{Ref: e}, tok(op), tok(bang)}}
+			}
+			if r.Chance(1, 2) {
+				prods = append([]gram.Prod{up}, prods...)
+			} else {
+				prods = append(prods, up)
+			}
 		}
 	}
 	if es.LP >= 0 {
@@ -577,15 +624,15 @@ func ExprGrammar(r *rng.R, twist string) *ExprSpec {
 		nr := len(g.Rules)
 		op := addTok("XOP", "%")
 		g.Rules = append(g.Rules, gram.Rule{Name: "other", Prods: []gram.Prod{
-			{Terms: []gram.Term{{Ref: e}, tok(op), {Ref: e}}, Qual: &gram.Qual{N: nLevels + 1}},
+			{Terms: []gram.Term{{Ref: e}, tok(op), {Ref: e}}, Qual: &gram.Qual{N: lvl(nLevels + 1)}},
 		}})
 		prods = append(prods, gram.Prod{Terms: []gram.Term{{Ref: gram.Ref{Kind: gram.KRule, Idx: nr}}}})
 	case "reduce-reduce":
 		// two qualified alternatives that derive the same token
 		x := addTok("XX", "x")
 		prods = append(prods,
-			gram.Prod{Terms: []gram.Term{tok(x)}, Qual: &gram.Qual{N: 1}},
-			gram.Prod{Terms: []gram.Term{tok(x)}, Qual: &gram.Qual{N: 2}})
+			gram.Prod{Terms: []gram.Term{tok(x)}, Qual: &gram.Qual{N: lvl(1)}},
+			gram.Prod{Terms: []gram.Term{tok(x)}, Qual: &gram.Qual{N: lvl(2)}})
 	case "three-way-cell":
 		// total = expr OP expr next to the qualified expr OP expr, both
 		// reachable: after "expr OP expr" the cell on OP holds a shift and two
@@ -610,7 +657,7 @@ func ExprGrammar(r *rng.R, twist string) *ExprSpec {
 		// wanting the shift carry different levels
 		if len(es.Levels) > 0 {
 			op := es.Levels[0].Ops[0]
-			prods = append(prods, gram.Prod{Terms: []gram.Term{{Ref: e}, tok(op), tok(op), {Ref: e}}, Qual: &gram.Qual{N: len(es.Levels) + 1}})
+			prods = append(prods, gram.Prod{Terms: []gram.Term{{Ref: e}, tok(op), tok(op), {Ref: e}}, Qual: &gram.Qual{N: lvl(len(es.Levels) + 1)}})
 		}
 	}
 	g.Rules[0].Prods = prods
